@@ -551,6 +551,10 @@ class Transport(threading.Thread, ClosingContextManager):
         self.clear_to_send = threading.Event()
         self.clear_to_send_lock = threading.Lock()
         self.clear_to_send_timeout = 30.0
+        # messages the transport thread itself wanted to send during a key
+        # exchange (replies to peer requests, keepalives); see
+        # _send_user_message
+        self._kex_deferred_messages = []
         self.log_name = "paramiko.transport"
         self.logger = util.get_logger(self.log_name)
         self.packetizer.set_log(self.logger)
@@ -1962,6 +1966,22 @@ class Transport(threading.Thread, ClosingContextManager):
         send a message, but block if we're in key negotiation.  this is used
         for user-initiated requests.
         """
+        if threading.current_thread() is self:
+            # We are the transport thread itself, eg replying to a peer's
+            # request or sending a keepalive. Waiting for the key exchange to
+            # finish would be waiting for ourselves (until the timeout below
+            # kills the session), and sending right away would put a
+            # connection-layer message inside the exchange. Queue it; it goes
+            # out right after the peer's NEWKEYS.
+            self.clear_to_send_lock.acquire()
+            try:
+                if self.clear_to_send.is_set():
+                    self._send_message(data)
+                else:
+                    self._kex_deferred_messages.append(data)
+            finally:
+                self.clear_to_send_lock.release()
+            return
         start = time.time()
         while True:
             self.clear_to_send.wait(0.1)
@@ -2931,6 +2951,13 @@ class Transport(threading.Thread, ClosingContextManager):
             self.in_kex = False
         self.clear_to_send_lock.acquire()
         try:
+            # first whatever this thread had to hold back during the exchange
+            deferred, self._kex_deferred_messages = (
+                self._kex_deferred_messages,
+                [],
+            )
+            for msg in deferred:
+                self._send_message(msg)
             self.clear_to_send.set()
         finally:
             self.clear_to_send_lock.release()
@@ -2980,7 +3007,7 @@ class Transport(threading.Thread, ClosingContextManager):
                 msg.add(*extra)
             else:
                 msg.add_byte(cMSG_REQUEST_FAILURE)
-            self._send_message(msg)
+            self._send_user_message(msg)
 
     def _parse_request_success(self, m):
         self._log(DEBUG, "Global request successful.")
@@ -3127,7 +3154,7 @@ class Transport(threading.Thread, ClosingContextManager):
             msg.add_int(reason)
             msg.add_string("")
             msg.add_string("en")
-            self._send_message(msg)
+            self._send_user_message(msg)
             return
 
         chan = Channel(my_chanid)
@@ -3150,7 +3177,7 @@ class Transport(threading.Thread, ClosingContextManager):
         m.add_int(my_chanid)
         m.add_int(self.default_window_size)
         m.add_int(self.default_max_packet_size)
-        self._send_message(m)
+        self._send_user_message(m)
         self._log(
             DEBUG, "Secsh channel {:d} ({}) opened.".format(my_chanid, kind)
         )
